@@ -1,7 +1,7 @@
 (* C04 — schema evolution: unknown fields are skipped exactly, absent optionals take defaults. Statements only. *)
 From Coq Require Import List NArith ZArith.
 From TarsV Require Import Base.Hex Codec.Wire Codec.Skip Codec.SkipProofs Codec.Prim Codec.GenCodec Codec.Corr Codec.GenProofs
-  Codec.RoundTrip Codec.RoundTripProofs Codec.NestedProofs Codec.RoundTripExamples Gen.Schemas.
+  Codec.RoundTrip Codec.RoundTripProofs Codec.NestedProofs Codec.RoundTripExamples Codec.CorrT Gen.Schemas.
 Import ListNotations.
 Open Scope N_scope.
 
